@@ -233,6 +233,14 @@ class TreeGen:
         self.tags.append(c)
         if c == "scaled":
             return {"k": "scaled", "c": f2b(self.scale(safe)), "f": self.gen(depth - 1, shape, safe)}
+        if c == "mul" and rng.random() < 0.25 and not safe:
+            # `L.set_scale(c)` on a (possibly already rescaled) loss
+            inner = self.sql2(shape) if not block else {"k": "loss", "y": self.measurement(shape), "A": None, "Alinear": None,
+                                                        "f": self.gen(depth - 1, shape, True), "scale": f2b(pos_dyadic(rng))}
+            if rng.random() < 0.5:
+                inner = {"k": "mul", "c": f2b(pos_dyadic(rng)), "side": int(rng.integers(2)), "f": inner}
+            self.tags.append("setscale")
+            return {"k": "setscale", "c": f2b(pos_dyadic(rng)), "f": inner}
         if c == "mul":
             child = self.gen(depth - 1, shape, safe)
             # `c * loss` folds c into the loss's own scale; non-positive loss scales are not generated (design/C08.md)
@@ -290,7 +298,7 @@ def is_lossish(t):
     """does `c * <t>` rescale a Loss (rather than build a ScaledFunctional)?"""
     if t["k"] in ("loss", "sql2"):
         return True
-    if t["k"] in ("mul", "div"):
+    if t["k"] in ("mul", "div", "setscale"):
         return is_lossish(t["f"])
     return False
 
@@ -337,6 +345,13 @@ def build(scico, case, t=None, shape=None, info=None):
         o = build_leaf(F, case["leaves"][t["id"]])
         info.leaf_objs[t["id"]] = o
         res = o
+    elif k == "setscale":
+        o = sub(t["f"])
+        if o is TypeError or not hasattr(o, "set_scale"):
+            res = TypeError
+        else:
+            o.set_scale(b2f(t["c"]))
+            res = o
     elif k in ("scaled", "mul", "div"):
         o = sub(t["f"])
         c = b2f(t["c"])
@@ -460,6 +475,12 @@ def np_eval(case, blocks, t=None, shape=None):
         return np_leaf(case["leaves"][t["id"]], blocks)
     if k in ("scaled", "mul"):
         return b2f(t["c"]) * np_eval(case, blocks, t["f"], shape)
+    if k == "setscale":
+        inner = dict(t["f"])
+        while inner["k"] in ("mul", "div", "setscale"):  # rescalings below are overwritten
+            inner = dict(inner["f"])
+        inner["scale"] = t["c"]
+        return np_eval(case, blocks, inner, shape)
     if k == "div":
         return np_eval(case, blocks, t["f"], shape) / b2f(t["c"])
     if k == "sum":
@@ -502,6 +523,36 @@ def tree_depth(t):
     return 1 + tree_depth(t["f"])
 
 
+def gen_translate_case(rng, depth=2):
+    """Loss.prox translation rule with a *non-even* functional and y != 0, under rescaling chains
+    (c*L, L/c, set_scale, ScaledFunctional of ScaledFunctional): real data, plain or block argument"""
+    block = bool(rng.integers(2))
+    shape = random_shape(rng, block)
+    tg = TreeGen(rng, False, allow_lossdefect=False)
+
+    def noneven(sh):
+        t = tg.leaf(["nonneg"])
+        if rng.random() < 0.5:
+            t = {"k": "scaled", "c": f2b(pos_dyadic(rng)), "f": t}
+        if rng.random() < 0.3:
+            t = {"k": "scaled", "c": f2b(pos_dyadic(rng)), "f": t}
+        return t
+
+    f = {"k": "sep", "fs": [noneven(s) if rng.random() < 0.7 else tg.leaf(["l1", "hubers"]) for s in shape]} if block else noneven(shape)
+    y = random_arg_json(rng, shape, False, scale=3.0, bits=2)
+    t = {"k": "loss", "y": y, "A": None, "Alinear": None, "f": f, "scale": f2b(pos_dyadic(rng))}
+    for _ in range(int(rng.integers(0, depth + 1))):
+        w = int(rng.integers(3))
+        if w == 0:
+            t = {"k": "mul", "c": f2b(pos_dyadic(rng)), "side": int(rng.integers(2)), "f": t}
+        elif w == 1:
+            t = {"k": "div", "c": f2b(pos_dyadic(rng)), "f": t}
+        else:
+            t = {"k": "setscale", "c": f2b(pos_dyadic(rng)), "f": t}
+    return {"cplx": False, "leaves": tg.leaves, "ops": [], "t": t,
+            "shape": [list(s) for s in shape] if block else list(shape)}
+
+
 def tree_sig(t):
     """structural signature (constructor skeleton) used as the distinct-case key"""
     k = t["k"]
@@ -515,4 +566,4 @@ def tree_sig(t):
         return "S(" + tree_sig(t["f"]) + "+" + tree_sig(t["g"]) + ")"
     if k == "loss":
         return "Lo" + ("A" if t.get("A") is not None else "") + "(" + ("-" if t.get("f") is None else tree_sig(t["f"])) + ")"
-    return k[0] + "(" + tree_sig(t["f"]) + ")"
+    return ("ss" if k == "setscale" else k[0]) + "(" + tree_sig(t["f"]) + ")"
